@@ -14,6 +14,7 @@ def run(rep, tier, seed):
         asis_refuted(rep, wd, "Gen_C13.tla", "C13_asis", {"Depth": 1, "FixTry": "FALSE"}, {"Kinds": "WrapKinds"},
                      ("TryRestoresState",))
     repo_suite_traces(rep, wd)
+    random_program_traces(rep, wd, exe, seed, 1500 if tier == "quick" else 12000, 4 if tier == "quick" else 5)
     rep.exhaustive = True
 
 def replay(path):
